@@ -164,8 +164,8 @@ def run_multiple(chk, want):
     rng = chk.rng
     drv = common.Driver()
     bad_merge, bad_iter, fails = [], [], []
-    bad_prog, bad_split = [], []
-    nprog = nsplit = 0
+    bad_prog, bad_split, bad_upd = [], [], []
+    nprog = nsplit = nupd = 0
     n = chk.n(1200, 24000)
     nmerge = 0
     npass = 0
@@ -248,6 +248,29 @@ def run_multiple(chk, want):
                 nsplit += 1
                 if o != 'M ' + rows_line(a):
                     bad_split.append((seqs, sp, o))
+            # _update_alignments: tokens + final internal matrix + int2ext -> Lean updateAlignments == the public alm_matrix, with the
+            # hypotheses of C04_update (updateOkb: partition, one length, positions in order, no gap token) accepted on the observed data
+            try:
+                tcode = {'-': 0}
+                tk = [[tcode.setdefault(x, len(tcode)) for x in t] for t in msa.tokens]
+                intl = []
+                for i, line in enumerate(msa._alm_matrix):
+                    row = []
+                    for num in line:
+                        if num == 'X':
+                            row.append(0)
+                        else:
+                            a_, b_ = num.split('.')[:2]
+                            row.append(int(b_) if int(a_) == i + 1 else 10 ** 6)   # a number of another sequence: breaks the hypotheses
+                    intl.append(row)
+                i2e = [list(msa.int2ext[i]) for i in range(len(msa.int2ext))]
+                pub = [[tcode.get(x, 10 ** 6) for x in r] for r in msa.alm_matrix]
+                o = drv.ask('update|%s|%s|%s' % (rows_line(tk), rows_line(intl), rows_line(i2e)))
+                nupd += 1
+                if o != 'M ' + rows_line(pub):
+                    bad_upd.append((seqs, method, kw, log, o[:300], rows_line(pub)[:300]))
+            except Exception as ex:  # noqa
+                bad_upd.append((seqs, method, kw, log, 'tie raised %s' % type(ex).__name__, ''))
         for itr in (rec.iters if want == 'C11' else []):     # the end-of-pass decision is C11's mechanism, not C04's
             if itr['check'] != 'final' or itr['n_idx'] == 1 or not itr['seen']:
                 continue
@@ -267,6 +290,8 @@ def run_multiple(chk, want):
                        'correspondence', not bad_prog, 'alignments=%d mismatches=%d' % (nprog, len(bad_prog)))
         chk.obligation('correspondence:refinement split (_split, _align_profile, _join) == Lean refineSplit, hypotheses of C04_refineSplit (rectb, splitOkb) hold on the observed data', 'correspondence', not bad_split,
                        'splits=%d mismatches=%d' % (nsplit, len(bad_split)))
+        chk.obligation('correspondence:_update_alignments == Lean updateAlignments on the observed tokens, internal matrix and int2ext; hypotheses of C04_update (updateOkb) hold on them',
+                       'correspondence', not bad_upd, 'matrices=%d mismatches=%d %s' % (nupd, len(bad_upd), str(bad_upd[0])[:300] if bad_upd else ''))
     if want == 'C11':
         chk.obligation('correspondence:end-of-pass decision of _iter == Lean iterFinal (same gap weight on both sides, exact restore)', 'correspondence',
                        not bad_iter, 'passes=%d mismatches=%d %s' % (npass, len(bad_iter), str(bad_iter[0])[:200] if bad_iter else ''))
@@ -275,9 +300,9 @@ def run_multiple(chk, want):
     for f in fails[:2]:
         chk.violation('Multiple(%r).%s(%r) then %r: %s' % (f[0], f[1], f[2], f[3], f[4]),
                       {'kind': 'multiple', 'seqs': f[0], 'method': f[1], 'kw': f[2], 'calls': f[3], 'why': f[4]})
-    if (bad_merge or bad_iter or bad_prog or bad_split) and not fails:
+    if (bad_merge or bad_iter or bad_prog or bad_split or bad_upd) and not fails:
         chk.violation('merge / end-of-pass step differs from the model; oracle found no failing input',
-                      {'kind': 'multiple-model', 'detail': str((bad_merge or bad_iter or bad_prog or bad_split)[0])[:2000], 'broken': 'correspondence'}, found_input=False)
+                      {'kind': 'multiple-model', 'detail': str((bad_merge or bad_iter or bad_prog or bad_split or bad_upd)[0])[:2000], 'broken': 'correspondence'}, found_input=False)
     chk.sample({'seqs': seqs, 'alm_matrix': [' '.join(r) for r in msa.alm_matrix]}, limit=2)
 
 
